@@ -20,6 +20,7 @@ TECHNIQUE = 'differential execution on sqlite3: original single-integration quer
 RULE = ('queries = generated single-integration SELECT/UNION/CTE/window statements + dedicated alias-shadowing shapes, x 3-6 random states x '
         'catalog forms; negative variants counted separately; non-trivial = query with a join, subquery, CTE or set operation; distinct by '
         '(query, catalog form)')
+RULE += '; also: qualified names in every clause (HAVING with and without GROUP BY, ORDER/GROUP BY, CASE, ON, windows of every form, EXISTS, target sub-queries), CTE named like a table, one planner planning a sequence'
 ASSUMPTIONS = ['sqlite3 reference engine with the integration ATTACHed under its name', 'output column names are compared case-insensitively for aliased and plain-column targets']
 BUDGET = {'quick': (8, 270), 'thorough': (16, 1800)}
 
